@@ -332,6 +332,30 @@ class Model:
                 return False
         return True
 
+    def class_constant(self, cls, attr):
+        """(defining class, expression) when `attr` is set in the class body of cls (or the nearest base that has it), is not a method, and NO statement of the
+        package stores to an attribute of that name (so that reading it off an instance finds the class-level value); else None"""
+        stored = getattr(self, '_stored_attr_names', None)
+        if stored is None:
+            stored = set()
+            for fn in list(self.all_funcs()) + [self.module_func(m_) for m_ in self.mods]:
+                if fn is None:
+                    continue
+                for n in ast.walk(fn.node):
+                    if isinstance(n, ast.Attribute) and isinstance(n.ctx, (ast.Store, ast.Del)):
+                        stored.add(n.attr)
+                    elif isinstance(n, ast.Call) and isinstance(n.func, ast.Name) and n.func.id == 'setattr' and len(n.args) >= 2:
+                        stored.add(n.args[1].value if isinstance(n.args[1], ast.Constant) else '*')
+            self._stored_attr_names = stored
+        if attr in stored or '*' in stored:
+            return None
+        for k in cls.mro():
+            if attr in k.class_attrs:
+                return (k, k.class_attrs[attr]) if k.lookup(attr) is None or attr not in k.methods else None
+            if attr in k.methods:
+                return None
+        return None
+
     def field_written_outside_init(self, cls, field):
         """some statement of the package other than <cls>.__init__ (and helpers only it calls) assigns, deletes or mutates in place an attribute named `field`"""
         MUT = {'append', 'extend', 'insert', 'pop', 'remove', 'clear', 'update', 'setdefault', 'add', 'discard', 'popitem', 'sort', 'reverse', 'appendleft', 'popleft'}
